@@ -59,6 +59,11 @@ func scenarios(thorough bool, tarDir string) []Scen {
 	out = append(out, Scen{Name: "populated/tagdel+close", Pre: populated, Ops: []string{"tagdel:b", "close"}})
 	out = append(out, Scen{Name: "populated/mandel+close", Pre: populated, Ops: []string{"mandel:G3", "close"}})
 	out = append(out, Scen{Name: "populated/refdel+close", Pre: populated, Ops: []string{"refdel:a", "close"}})
+	// an index whose entries are blobs (BuildKit cache style): entries that do not load as manifests
+	// are reachable content too, for the collection and for every crash state of it
+	bi := append(append([]string{}, populated...), "push:G11:d")
+	out = append(out, Scen{Name: "blob-index/tagdel+close", Pre: bi, Ops: []string{"tagdel:b", "close"}})
+	out = append(out, Scen{Name: "populated/copy-blob-index+close", Pre: populated, Ops: []string{"copy:G11:c", "close"}})
 	// a subject with two referrers: the list is rewritten, not removed
 	two := append(append([]string{}, populated...), "refput2:a")
 	out = append(out, Scen{Name: "two-referrers/refdel", Pre: two, Ops: []string{"refdel:a"}})
@@ -69,6 +74,9 @@ func scenarios(thorough bool, tarDir string) []Scen {
 		two := []string{"push:G1:c", "tagdel:a", "copy:G3:c", "refput:a", "mandel:G3", "push:G3:a"}
 		for _, a := range two {
 			for _, b := range two {
+				if a == "tagdel:a" && b == "refput:a" {
+					continue // the second operation has no subject left: not a history of the alphabet
+				}
 				if a != b {
 					out = append(out, Scen{Name: "populated/" + opName(a) + "+" + opName(b), Pre: populated, Ops: []string{a, b}})
 				}
